@@ -101,7 +101,12 @@ def r7b(prog, rep):
     hosts = []
     for fn in prog.product_fns():
         names = {c.callee for c in fn.calls}
-        if any(n.endswith('tx_csv::parse_tx_csv') for n in names) and any(n.endswith('misc::split_txs_by_security') for n in names):
+        if not any(n.endswith('misc::split_txs_by_security') for n in names):
+            continue
+        # ... and reads the files: calls parse_tx_csv itself or through a helper of its module
+        reach = prog.callees_closure([fn])
+        if any(n.endswith('tx_csv::parse_tx_csv') for n in names) or \
+                any(n.endswith('tx_csv::parse_tx_csv') for g in reach.values() if g.file == fn.file for n in {c.callee for c in g.calls}):
             hosts.append(fn)
     if not rep.anchor('function that reads the CSV files and splits the transactions by security', hosts):
         return
@@ -147,19 +152,13 @@ def r7b(prog, rep):
 
 # ---------------------------------------------------------------------------------------------------- R7c
 def r7c(prog, rep):
-    for fn in prog.product_fns():
-        for c in fn.calls:
-            if not c.callee.endswith('tx_csv::parse_tx_csv'):
-                continue
-            if mir.is_testsupport(fn.name):
-                continue
-            k = '%s|read-index-carried' % fn.name
-            lp = fn.loop_of(c.bb)
-            if lp is None:
-                rep.info('R7c', k, where=c.where(), fn=fn.name, detail='parse_tx_csv called outside a per-file loop (single file)')
-                continue
-            idx_roots = root_local(fn, c.args[1])
-            # a definition of the index local inside the loop that adds the number of rows of this file
+    def carried(fn, c, arg, depth=0):
+        """the index argument `arg` of call `c` in fn: advanced by each file's row count inside the per-file loop? Returns a list of
+        (verdict, fn, call) — one per loop found; follows the argument up through parameters / async captures when the call is not in a
+        loop itself"""
+        lp = fn.loop_of(c.bb)
+        if lp is not None:
+            idx_roots = root_local(fn, arg)
             ok = False
             for l in idx_roots:
                 for (bb, i, kind, node) in fn.defs.get(l, []):
@@ -169,12 +168,40 @@ def r7c(prog, rep):
                     adds = any(op.startswith('Add') for op, _ in org.binops)
                     if adds and org.has_call(r'vec::Vec::<T, A>::len$|::len$') and l in org.locals:
                         ok = True
-            if ok:
-                rep.ok('R7c', k, where=c.where(), fn=fn.name, detail='the index handed to parse_tx_csv is advanced by the row count of each file inside the per-file loop')
-            else:
-                rep.violation('R7c', k, where=c.where(), fn=fn.name,
-                              detail='the global read index passed to parse_tx_csv is not advanced by each file\'s row count: rows of later files would tie '
-                                     'with (or sort before) rows of earlier files on the same date')
+            return [(ok, fn, c)]
+        if depth >= 3:
+            return []
+        o = mir.provenance(fn, arg)
+        owner, pl = None, None
+        if o.params - ({1} if fn.kind in ('Closure', 'SyntheticCoroutineBody') else set()):
+            owner, pl = fn, sorted(o.params)[-1]
+        elif o.upvars:
+            owner, pl = mir.owner_local_of_upvar(prog, fn, arg)
+        if owner is None or not owner.is_param(pl):
+            return []
+        out = []
+        for cc in prog.callers.get(owner.name, []):
+            if not mir.is_testsupport(cc.fn.name) and pl - 1 < len(cc.args):
+                out += carried(cc.fn, cc, cc.args[pl - 1], depth + 1)
+        return out
+    for fn in prog.product_fns():
+        for c in fn.calls:
+            if not c.callee.endswith('tx_csv::parse_tx_csv'):
+                continue
+            if mir.is_testsupport(fn.name):
+                continue
+            res = carried(fn, c, c.args[1])
+            if not res:
+                rep.info('R7c', '%s|read-index-carried' % fn.name, where=c.where(), fn=fn.name,
+                         detail='parse_tx_csv called outside a per-file loop (single file)')
+            for (ok, hf, hc) in res:
+                k = '%s|read-index-carried' % hf.name
+                if ok:
+                    rep.ok('R7c', k, where=hc.where(), fn=hf.name, detail='the index handed to parse_tx_csv is advanced by the row count of each file inside the per-file loop')
+                else:
+                    rep.violation('R7c', k, where=hc.where(), fn=hf.name,
+                                  detail='the global read index passed to parse_tx_csv is not advanced by each file\'s row count: rows of later files would tie '
+                                         'with (or sort before) rows of earlier files on the same date')
     p = prog.fn('portfolio::io::tx_csv::parse_tx_csv')
     if not rep.anchor('parse_tx_csv', p):
         return
